@@ -20,6 +20,7 @@ pub static PROP: Prop = Prop {
     rule: "lists of lists of indices / labels with empty segments and empty totals, re-indexing maps (non-injective, empty, mistyped), composable pairs for flatmap, raw (sizes, values) data for the checked constructors, operation batches; one operation group per case, decoded by explicit slicing; non-trivial = >= 2 segments with >= 1 empty and >= 1 non-empty one (iterator cases: >= 2 steps); distinct = hash of the generated data",
     assumptions: &["flatmap / flatmap_sources are only called inside their asserted preconditions (the library documents a panic otherwise)"],
     fixed: Some(fixed),
+    scale: None,
 };
 
 type Lists = Vec<Vec<usize>>;
@@ -326,10 +327,80 @@ fn iterators(t: &mut Tape, ctx: &mut Ctx, ms: usize, ml: usize) -> CheckResult {
     iterate_ff(ctx, &a, target)?;
     let la: Vec<Vec<Ob>> = a.iter().map(|l| l.iter().map(|&v| Ob(v as u32)).collect()).collect();
     iterate_sf(ctx, &la)?;
+    // a random walk of next / nth(k) / skip(k) / step_by(k) calls, also past the end
+    let ops: Vec<(usize, usize)> = (0..t.range(1, 5)).map(|_| (t.choice(3), t.choice(a.len() + 3))).collect();
+    walk(ctx, &a, target, &la, &ops)?;
     if a.len() >= 2 {
         ctx.nontrivial(&("iter", &a, target));
         if ctx.want_sample {
             ctx.sample = Some(format!("iterators: {}", ctx.dump));
+        }
+    }
+    Ok(())
+}
+
+/// model of an iterator position: compare every answer with the plain list
+fn walk(ctx: &mut Ctx, a: &Lists, target: usize, la: &[Vec<Ob>], ops: &[(usize, usize)]) -> CheckResult {
+    ctx.sub("iterator-walk");
+    let n = a.len();
+    // finite-function values
+    let mut it = sv::icf(a, target).into_iter();
+    let mut pos = 0usize;
+    for &(op, k) in ops {
+        match op {
+            0 => {
+                let got = it.next().map(|f| f.table.0);
+                let want = a.get(pos).cloned();
+                ensure!(ctx, got == want, "iterator-walk", "next() at position {pos} = {:?} want {:?}", got, want);
+                pos = (pos + 1).min(n);
+            }
+            _ => {
+                let got = it.nth(k).map(|f| f.table.0);
+                let want = a.get(pos + k).cloned();
+                ensure!(ctx, got == want, "iterator-walk", "nth({k}) at position {pos} = {:?} want {:?}", got, want);
+                pos = (pos + k + 1).min(n);
+            }
+        }
+        let rem = n - pos;
+        let r = lib(|| (it.len(), it.size_hint()));
+        match r {
+            Ok((l, h)) => ensure!(ctx, l == rem && h == (rem, Some(rem)), "iterator-walk", "after {:?} (position {pos} of {n}): len() = {l}, size_hint() = {:?}, but {rem} slices are still to come", ops, h),
+            Err(p) => return Err(ctx.fail("iterator-walk", format!("after {:?} (position {pos} of {n}): len()/size_hint() panicked: {} at {}", ops, p.message, p.location))),
+        }
+    }
+    // adaptors built on nth: skip and step_by, on the label-array iterator
+    let (op0, k0) = ops[0];
+    let ic = sv::ics(la);
+    if op0 == 1 {
+        let mut sk = ic.clone().into_iter().skip(k0);
+        let first = sk.next().map(|f| f.0 .0);
+        ensure!(ctx, first == la.get(k0).cloned(), "iterator-walk", "skip({k0}).next() = {:?} want {:?}", first, la.get(k0));
+        let rest: Vec<Vec<Ob>> = sk.map(|f| f.0 .0).collect();
+        let want: Vec<Vec<Ob>> = la.iter().skip(k0 + 1).cloned().collect();
+        ensure!(ctx, rest == want, "iterator-walk", "skip({k0}) yields {:?} want {:?}", rest, want);
+    } else {
+        let st = k0 + 1;
+        let got: Vec<Vec<Ob>> = ic.clone().into_iter().step_by(st).map(|f| f.0 .0).collect();
+        let want: Vec<Vec<Ob>> = la.iter().step_by(st).cloned().collect();
+        ensure!(ctx, got == want, "iterator-walk", "step_by({st}) yields {:?} want {:?}", got, want);
+    }
+    // the same walk on the label-array iterator
+    let mut it = ic.into_iter();
+    let mut pos = 0usize;
+    for &(op, k) in ops {
+        if op == 0 {
+            let got = it.next().map(|f| f.0 .0);
+            ensure!(ctx, got == la.get(pos).cloned(), "iterator-walk", "labels: next() at {pos} = {:?}", got);
+            pos = (pos + 1).min(n);
+        } else {
+            let got = it.nth(k).map(|f| f.0 .0);
+            ensure!(ctx, got == la.get(pos + k).cloned(), "iterator-walk", "labels: nth({k}) at {pos} = {:?}", got);
+            pos = (pos + k + 1).min(n);
+        }
+        let rem = n - pos;
+        match lib(|| (it.len(), it.size_hint())) {
+            Ok((l, h)) => ensure!(ctx, l == rem && h == (rem, Some(rem)), "iterator-walk", "labels: after {:?}: len() = {l}, size_hint() = {:?}, but {rem} slices are still to come", ops, h),
+            Err(p) => return Err(ctx.fail("iterator-walk", format!("labels: after {:?}: len()/size_hint() panicked: {}", ops, p.message))),
         }
     }
     Ok(())
